@@ -78,13 +78,14 @@ int search_file_compare(const void* void_arg, const void* void_data)
 	/* read the block and compare the hash */
 	f = open(path, O_RDONLY | O_BINARY);
 	if (f == -1) {
+		/* if the file is not there anymore, it cannot be used as a source */
+		/* this happens when 'fix' itself renames a file found at the start */
+		/* of the search as .unrecoverable, or renames it back when fixed */
+		if (errno == ENOENT)
+			return -1;
+
 		/* LCOV_EXCL_START */
-		if (errno == ENOENT) {
-			log_fatal("DANGER! file '%s' disappeared.\n", path);
-			log_fatal("If you moved it, please rerun the same command.\n");
-		} else {
-			log_fatal("Error opening file '%s'. %s.\n", path, strerror(errno));
-		}
+		log_fatal("Error opening file '%s'. %s.\n", path, strerror(errno));
 		exit(EXIT_FAILURE);
 		/* LCOV_EXCL_STOP */
 	}
